@@ -83,7 +83,7 @@ def mk(kind: str, tc: bool, i: int) -> bytes:
     raise KeyError(kind)
 
 
-CHANGES = ["sub-U", "unsub-S", "pause-S", "sub-all", "unsub-all", "resume-Z"]
+CHANGES = ["sub-U", "unsub-S", "pause-S", "sub-all", "unsub-all", "resume-Z", "pause-all", "pause-all-api", "unsub-ALL", "resume-all-api"]
 
 
 def apply_change(c, ch):
@@ -99,16 +99,26 @@ def apply_change(c, ch):
         c.unsubscribe_from_all()
     elif ch == "resume-Z":
         c.resume_subscription([Z8])
+    elif ch == "pause-all":
+        c.pause_subscription([P.ALL_MESSAGE_TYPES])
+    elif ch == "pause-all-api":
+        c.pause_all_subscriptions()
+    elif ch == "unsub-ALL":
+        c.unsubscribe([P.ALL_MESSAGE_TYPES])
+    elif ch == "resume-all-api":
+        c.resume_all_subscriptions()
 
 
 def model_change(st, ch):
     subs, all_ = set(st[0]), st[1]
     if ch == "sub-all":
         return (set(), True)
+    if ch in ("pause-all", "unsub-ALL"):
+        return (set(), False)  # ALL in the list: everything is dropped, also while subscribed to all
     if all_:
-        if ch == "unsub-all":
-            return (set(), False)
-        return (subs, all_)  # refused while subscribed to all
+        if ch in ("unsub-all", "pause-all-api"):
+            return (set(), False)  # the helpers pass the reported set, which is {ALL}
+        return (subs, all_)  # individual changes are refused while subscribed to all
     if ch == "sub-U":
         subs.add(U8)
     elif ch in ("unsub-S", "pause-S"):
@@ -117,6 +127,10 @@ def model_change(st, ch):
         subs = set()
     elif ch == "resume-Z":
         subs.add(Z8)
+    elif ch == "pause-all-api":
+        subs = set()
+    elif ch == "resume-all-api":
+        subs.add(Z8)  # the only paused type of the initial state
     return (subs, all_)
 
 
@@ -201,6 +215,9 @@ def run_case(case) -> Dict[str, Any]:
             c.subscribe([S8, G0, Z8])
             c.pause_subscription([Z8])
             st = ({S8, G0}, False)
+            if case.get("init") == "all":
+                c.subscribe([P.ALL_MESSAGE_TYPES])
+                st = (set(), True)
             ref = RefReader(stream, close, tc)
             if close is None:
                 sp.feed(stream)
@@ -283,6 +300,8 @@ def cases(tier: str) -> List[Dict[str, Any]]:
                     continue
                 for to, ack, sync in params:
                     out.append(dict(tc=tc, kinds=list(seq), timeout=to, ack=ack, sync=sync))
+                if n <= 2:
+                    out.append(dict(tc=tc, kinds=list(seq), timeout=0.1, ack=False, sync=True, init="all"))
     # one subscription change between any two reads
     for n in range(1, 3 if tier == "quick" else 4):
         for seq in itertools.product(KINDS, repeat=n):
@@ -290,6 +309,9 @@ def cases(tier: str) -> List[Dict[str, Any]]:
                 for pos in range(0, n + 1):
                     for to, ack, sync in ((0.1, False, False), (0, False, True), (-1, True, False)):
                         out.append(dict(tc=False, kinds=list(seq), timeout=to, ack=ack, sync=sync, change=[pos, ch]))
+                    if n <= 2:
+                        out.append(dict(tc=False, kinds=list(seq), timeout=0.1, ack=False, sync=False, change=[pos, ch], init="all"))
+                        out.append(dict(tc=True, kinds=list(seq), timeout=-1, ack=True, sync=True, change=[pos, ch], init="all"))
     # the peer closes at every byte offset
     for tc in (False, True):
         for n in range(1, 3 if tier == "quick" else 4):
